@@ -165,6 +165,64 @@ def release(d0: int, s0: int, s1: int) -> bool:
     return ok()
 
 
+def admit_release(d0: int, kind: int) -> bool:
+    """
+    pre: 33 <= d0 <= 126
+    pre: 0 <= kind <= 5
+    post: _
+    """
+    begin()
+    # remote executor (descriptors arrive from the acceptor over a pipe and must be os.close()d by the worker) behind a TLS-terminating
+    # listener: a connection whose handshake fails at admission, then one that is admitted, served and ends: the received descriptor of
+    # each is closed exactly once, nothing stays behind
+    import ssl as _ssl
+    faults = [_ssl.SSLError(1, 'wrong version number'), ConnectionResetError(errno.ECONNRESET, 'reset'), _ssl.SSLEOFError(8, 'EOF'),
+              TimeoutError(errno.ETIMEDOUT, 'timed out'), OSError(errno.EIO, 'io'), None]
+    fault = None
+    for k in range(6):
+        if kind == k:
+            fault = faults[k]
+    if d0 == 63 or d0 == 35 or d0 == 47 or d0 == 58 or d0 == 64:
+        return skip()
+    with concrete():
+        env = envkit.new_env()
+        xk = envkit.Executor(scen.FLAGS['forward_tls'], env, remote=True)
+    ex = xk.ex
+    if fault is not None:
+        env.wrap_faults['bad'] = fault
+        try:
+            bad = xk.accept('bad')
+        except Exception as e:
+            return fail('exception escaped the executor while admitting a connection', exc=repr(e))
+        if not bad.closed:
+            return fail('socket of a connection whose admission failed was not closed')
+        if env.os_closed != [bad.fd]:
+            return fail('descriptor received for a connection whose admission failed was not os.close()d exactly once', closed=repr(env.os_closed))
+        if ex.works or ex.selector.map or ex.registered_events_by_work_ids:
+            return fail('a connection whose admission failed left something behind', works=repr(list(ex.works)))
+    n0 = len(env.os_closed)
+    cs = xk.accept('good')
+    cs.inq.append(b'GET http://o.example/a' + B(d0) + b' HTTP/1.1\r\nHost: o.example\r\n\r\n')
+    for i in range(6):
+        if i == 2:
+            cs.inq.append(b'')
+        e = xk.step()
+        if e is not None:
+            return fail('exception escaped the executor loop', exc=repr(e))
+        if not ex.works:
+            break
+    if ex.works:
+        return fail('connection still known to the executor after its client closed')
+    for s_ in env.sockets:
+        if not s_.closed:
+            return fail('socket %s never closed' % s_.name)
+    if env.os_closed[n0:] != [cs.fd]:
+        return fail('descriptor received for an admitted connection was not os.close()d exactly once', closed=repr(env.os_closed[n0:]))
+    if ex.selector.map or ex.registered_events_by_work_ids:
+        return fail('descriptors left registered')
+    return ok()
+
+
 def obligations(tier):
     obs = []
     T = 400
@@ -191,6 +249,7 @@ def obligations(tier):
                 obs.append({'name': 'release.%s.connect_%s' % (role, conn), 'fn': 'release',
                             'cfg': {'role': role, 'abort_at': 99, 'abort_side': 'client', 'abort_kind': 'eof', 'connect': conn, 'repeat': True},
                             'timeout': T})
+    obs.append({'name': 'admit_release.remote_tls', 'fn': 'admit_release', 'cfg': {}, 'timeout': T})
     return obs
 
 
@@ -201,10 +260,11 @@ META = {
                  'upstream connection was made; every prefix of each script followed by an abort '
                  'on the client or upstream side in {EOF, reset, EPIPE on send, (EIO, timeout at steps 1-2)}; connect refusal / timeout / '
                  'resolution failure; connections no abort reaches end by the idle reaper under a jumped clock; one symbolic payload byte and '
-                 'two symbolic fair short-write outcomes; selected histories run twice on the same executor',
+                 'two symbolic fair short-write outcomes; selected histories run twice on the same executor; a remote executor behind a TLS listener: '
+                 'admission failing in 5 ways, then an admitted connection: received descriptors os.close()d exactly once',
         'thorough': 'EIO and timeout aborts at every step',
     },
-    'outside': 'real descriptors (/proc/<pid>/fd), os.close(work_id) of remote executors (work_queue_fileno() is None here), connection-pool '
+    'outside': 'real descriptors (/proc/<pid>/fd; os.close of a remote executor is a recorder), connection-pool '
                'mode (--enable-conn-pool), more than one connection at a time (see C05)',
     'stubs': ['FakeSocket / connect stub / FakeSelector(auto readiness) / FakeLoop / integer clock'],
 }
